@@ -48,6 +48,9 @@ pub const STOP: &str = "__stop__";
 
 /// Executes a plan; a STOP pseudo-violation is "no violation".
 pub fn run_plan(scen: &dyn Scenario, plan: &Plan, ctx: &mut Ctx) -> Check {
+    // the hash order of every map the code under test creates during this execution is a function
+    // of the plan (see hashseam.rs)
+    crate::hashseam::begin_run(crate::hashseam::plan_key(plan.seed, plan.run));
     match scen.execute(plan, ctx) {
         Err(v) if v.oracle == STOP => Ok(()),
         r => r,
@@ -109,6 +112,7 @@ impl Ctx {
         self.add("fault.interrupted", f.interrupted);
         self.add("fault.hard", f.hard);
         self.add("fault.premature_eof", f.eof);
+        self.add("fault.sink_owned_by_callee", f.owned_adapter);
     }
     pub fn faults_fired(&self) -> u64 {
         self.counters
